@@ -23,7 +23,7 @@ META = dict(
 )
 
 JAR_OK = "Model checking completed. No error has been found."
-UNPREDICTED = ["CalcInterest", "Tick", "Liquidate", "Bid", "FundMod"]
+UNPREDICTED = ["CalcInterest", "Tick", "Bid", "FundMod"]
 
 
 def mc_cfg(wd, name, profile, steps, emit, props):
@@ -37,7 +37,7 @@ def run(c):
     c.stage("lend")
     quick = c.tier == "quick"
     vlib.run_vh(["lend", "--init", os.path.join(c.wd, "lend_init.json")], timeout=300)
-    profiles = [("same", 4), ("cross", 4), ("multi", 4)] if quick else [("same", 6), ("cross", 5), ("multi", 5)]
+    profiles = [("same", 4), ("cross", 4), ("multi", 4), ("twopool", 5)] if quick else [("same", 6), ("cross", 5), ("multi", 5), ("twopool", 6)]
     gen = dist = 0
     logs = []
     # ---- model runs: C08 on the model + transition dump ----
